@@ -109,6 +109,24 @@ Theorem C20_concurrent_clean_entries_never_list :
 Proof. exact conc_clean_entries_no_listing. Qed.
 Print Assumptions C20_concurrent_clean_entries_never_list.
 
+(* 10. Wait-freedom.  A Find call returns after a number of its OWN steps bounded by the size of
+       the entry it read and of the listing (10 + recorded deps + listed deps), whatever values the
+       shared cache and counter take between its steps (cs: the shared state at each of its steps,
+       changed arbitrarily by other goroutines): no step waits for another thread, no retry loop. *)
+Theorem C20_concurrent_find_is_wait_free :
+  forall (w : world) (p : str) (c0 : cache) (n0 : nat) (cs : list (cache * nat)),
+    10 + listed_deps w p + match lookup p c0 with Some e => length (e_deps e) | None => 0 end <= length cs ->
+    is_done (own_steps w p ((c0, n0) :: cs) PStart) = true.
+Proof.
+  intros w p c0 n0 cs H. cbn [own_steps].
+  destruct (tstep w p c0 n0 PStart) as [[c' n'] k'] eqn:E. cbn [snd].
+  pose proof (tstep_first w p _ _ _ _ _ E) as Hb.
+  apply own_steps_done; [|lia].
+  cbn [tstep] in E. destruct (lookup p c0) as [e|]; [destruct (str_eqb (e_hash e) HashInvalid)|];
+    inversion E; discriminate.
+Qed.
+Print Assumptions C20_concurrent_find_is_wait_free.
+
 (* ---- non-vacuity ---- *)
 Definition ex_entry : str * entry :=
   ([102; 109; 116], mkEntry [47; 120; 46; 97] [104; 49] [([105; 111], [104; 50]); ([111; 115], [])])%N.
